@@ -210,12 +210,13 @@ Definition p_components (cfg : config) (t0 : Z) (m : mon) (pre : dump) (e : even
   [pc_panic o; c01_dump post; pc_sync post e o m3; pc_stream post e o m; pc_lost cfg pre post m; pc_cancel pre post e m;
    c03_dump post; c03_waited post; c04_dump post; pc_exec cfg t0 pre post e o; c05_assign pre post;
    c06_dump mf post; c06_final mf post; pc_arm cfg pre post e o m m3; snd (retry_step cfg post e o (rereq pre e m3) m3); pc_early cfg pre post (rereq pre e m3);
-   pc_learn e o m; c07_background post; c07_learners_match mf post; pc_gone post e o m; pc_term post mf].
+   pc_learn e o m; c07_background post; c07_learners_match mf post; pc_gone post e o m; pc_term post mf;
+   c05_retry (m_learners (pm1 e o m)) pre post e o].
 
 Lemma p_step_components : forall cfg t0 m pre e o post,
   p_step cfg t0 m pre e o post = (pm_final cfg pre post e o m, first_nonempty (p_components cfg t0 m pre e o post)).
 Proof.
-  intros cfg t0 m pre e o post. unfold p_step, p_components, pm_final, pc_learn, pc_stream, pc_gone, pc_term, pm3, pm2. cbv zeta.
+  intros cfg t0 m pre e o post. unfold p_step, p_gen, p_components, pm_final, pc_learn, pc_stream, pc_gone, pc_term, pm3, pm2. cbv zeta.
   fold (pm1 e o m).
   destruct (fold_left c07_ghost o (m_learners (pm1 e o m), ""%string)) as [ls el] eqn:E1. cbn [fst snd].
   destruct (fold_left (c02_obs post) o (pm1 e o m <| m_learners := ls |>, ""%string)) as [m3 es] eqn:E2. cbn [fst snd].
